@@ -29,6 +29,8 @@ type Profile struct {
 	PresetTagPct int // W1: % of stop-tag calls that reuse the previous call's Stag object without lowering it
 	LongHistPct int // W1: % of runs that are one long history (70-140 calls) of a single entry point on one engine
 	EvolvePct int // W1: % of runs whose rule set changes between calls (incremental builds, removals)
+	CarryPct  int // W1: % of runs that are a carry-over probe: one entry point for every call of the run, rules made of CarrySecs only, most calls ending early (fault or stop tag)
+	CarrySecs map[int]int
 }
 
 // G wraps the plan stream.
